@@ -353,4 +353,10 @@ def asmText (cfg : Cfg) (pc : PCfg) (files : List String) (start : Int) (stop : 
   let stmts ← files.mapM (parseFile pc)
   assemble cfg stmts start stop fill
 
+/-- the same with the line-by-line image (`assemble = assembleFast` is `C03.assemble_eq_fast`) -/
+def asmTextFast (cfg : Cfg) (pc : PCfg) (files : List String) (start : Int) (stop : Option Int) (fill : Nat) :
+    Except Err Outcome := do
+  let stmts ← files.mapM (parseFile pc)
+  assembleFast cfg stmts start stop fill
+
 end BV
